@@ -1,5 +1,7 @@
 import Chain33Model.Proofs.C04
 import Chain33Model.Proofs.C01Consistent
+import Chain33Model.Proofs.C01Depth
+import Chain33Model.Proofs.C01StoreInv
 /-!
 C04 — Pending state updates never leak into committed state.  Property theorems only (helpers: Proofs/C04.lean).
 
@@ -11,26 +13,50 @@ state `(cfg, db, trees, cache)` of C01/C02.  "Committed" = written to `db`; a re
 namespace C04
 open C01 C02
 
-/-- **uncommitted_noop** — computing a pending update writes nothing: the database is untouched and after a
-restart the store is exactly the store that never computed it. -/
+/-- **uncommitted_noop** — computing a pending update writes nothing: the database is untouched, after a
+restart the store is exactly the store that never computed it, and — without a restart — `Store.Get` at every
+root that has no pending tree of its own (every committed root that is not also pending) answers what it answered
+before.  (`dbRead`: the answer computed from the database alone; `CacheOK`: the node cache only holds what the
+database holds — true of a fresh or restarted store and kept by every request.) -/
 theorem uncommitted_noop (H : Bytes → Bytes) (s : Store) (p : Bytes) (bh : Nat) (kvs : List (Bytes × Bytes)) :
-    (memSet H s p bh kvs).2.db = s.db ∧ (memSet H s p bh kvs).2.reopen = s.reopen :=
-  let ⟨a, b⟩ := memSet_frame H s p bh kvs
-  ⟨a, reopen_eq_of_frame a b⟩
+    (memSet H s p bh kvs).2.db = s.db ∧ (memSet H s p bh kvs).2.reopen = s.reopen ∧
+    (CacheOK s → ∀ r ks, (∀ n, lookupTree s.trees r ≠ some (some n)) →
+      (∀ n, lookupTree (memSet H s p bh kvs).2.trees r ≠ some (some n)) →
+      ((memSet H s p bh kvs).2.get r ks).1 = (s.get r ks).1) := by
+  obtain ⟨a, b⟩ := memSet_frame H s p bh kvs
+  refine ⟨a, reopen_eq_of_frame a b, ?_⟩
+  intro hc r ks h1 h2
+  rw [get_reply_db _ (memSet_cacheOK H s hc p bh kvs) r ks h2, get_reply_db s hc r ks h1, a]
 
-/-- **rollback_noop** — rolling a pending update back writes nothing either. -/
+/-- **rollback_noop** — rolling a pending update back writes nothing either; reads at roots without a pending tree
+are unchanged. -/
 theorem rollback_noop (s : Store) (r : Bytes) :
-    (rollback s r).2.db = s.db ∧ (rollback s r).2.reopen = s.reopen :=
-  let ⟨a, b⟩ := rollback_frame s r
-  ⟨a, reopen_eq_of_frame a b⟩
+    (rollback s r).2.db = s.db ∧ (rollback s r).2.reopen = s.reopen ∧
+    (CacheOK s → ∀ r' ks, (∀ n, lookupTree s.trees r' ≠ some (some n)) →
+      (∀ n, lookupTree (rollback s r).2.trees r' ≠ some (some n)) →
+      ((rollback s r).2.get r' ks).1 = (s.get r' ks).1) := by
+  obtain ⟨a, b⟩ := rollback_frame s r
+  refine ⟨a, reopen_eq_of_frame a b, ?_⟩
+  intro hc r' ks h1 h2
+  rw [get_reply_db _ (rollback_cacheOK s hc r) r' ks h2, get_reply_db s hc r' ks h1, a]
 
 /-- **never_committed_noop** — any interleaving of MemSet / Rollback / Get / restart requests (on any parents,
-heights, roots) leaves the database as it was: every committed root reads as before, also after a restart. -/
+heights, roots) leaves the database as it was, the restarted store is the same store, and `Store.Get` at every root
+that has no pending tree (before and after) — every committed root — answers exactly what it answered before. -/
 theorem never_committed_noop (H : Bytes → Bytes) (s : Store) (ls : List Label)
     (hl : ∀ l ∈ ls, l.pendingOnly = true) :
-    (run H s ls).db = s.db ∧ (run H s ls).reopen = s.reopen :=
-  let ⟨a, b⟩ := run_frame H ls hl s
-  ⟨a, reopen_eq_of_frame a b⟩
+    (run H s ls).db = s.db ∧ (run H s ls).reopen = s.reopen ∧
+    (CacheOK s → ∀ r ks, (∀ n, lookupTree s.trees r ≠ some (some n)) →
+      (∀ n, lookupTree (run H s ls).trees r ≠ some (some n)) →
+      ((run H s ls).get r ks).1 = (s.get r ks).1) := by
+  obtain ⟨a, b⟩ := run_frame H ls hl s
+  refine ⟨a, reopen_eq_of_frame a b, ?_⟩
+  intro hc r ks h1 h2
+  rw [get_reply_db _ (run_cacheOK H ls hl s hc) r ks h2, get_reply_db s hc r ks h1, a]
+
+/-- non-vacuity of the read clause: a fresh store is `CacheOK` and has no pending tree. -/
+example : CacheOK (Store.new Cfg.default) ∧ ∀ r n, lookupTree (Store.new Cfg.default).trees r ≠ some (some n) :=
+  ⟨fun h n e => by simp [Store.new] at e, fun r n e => by simp [Store.new, lookupTree] at e⟩
 
 /-- non-vacuity: a history with a pending update, a rollback of an unknown root and a restart. -/
 example : ∀ l ∈ [Label.memSet [] 1 [([1], [2])], Label.rollback [9], Label.restart, Label.get [] [[1]]],
@@ -43,18 +69,23 @@ theorem memSet_empty_keeps_pending (H : Bytes → Bytes) (s : Store) (r : Bytes)
     (h : lookupTree s.trees r = some x) : memSet H s r bh [] = (.ok r, s) := by
   simp [memSet, h]
 
-/-- **commit_exact** — a pending update stays pending whatever other pending updates are computed: after *any*
-sequence of `MemSet` requests (any parents, heights, writes — empty ones on top of this very root included) there
-is still a hashed, unsaved tree stored under its root `r`, and `Commit r`, when it answers ok, has written the
-record of `r`: the committed root exists in the database.  (`PendOK`: pending trees are stored under their own root
-key and unsaved — true of every entry `MemSet` creates, `memSet_pending`.)  What the saved tree then reads as is
-`commit_exact_content`. -/
+/-- **commit_exact** — a pending update stays pending whatever else the store is asked to do: after *any*
+sequence of requests other than `Commit r`, `Rollback r` and a restart — Set, MemSet (any parents, heights, writes,
+empty ones on top of this very root included), Commit and Rollback of other roots, Get — there is still a hashed,
+unsaved tree stored under its root `r` (`n'`, keyed `r`; it is `n` unless a MemSet computed the root `r` again), and
+`Commit r`, when it answers ok, has written the record of `r`: the committed root exists in the database.
+(`PendOK`: pending trees are stored under their own root key and unsaved — true of every entry `MemSet` creates,
+`memSet_pending`.)  What the saved tree `n'` then reads as is `commit_exact_content` / `commit_exact_content_full`
+applied to the store `run H s ls` and the entry `n'` given here. -/
 theorem commit_exact (H : Bytes → Bytes) (s : Store) (hp : PendOK s) (r : Bytes) (n : Node)
-    (hn : lookupTree s.trees r = some (some n)) (ls : List Label) (hl : ∀ l ∈ ls, l.isMemSet = true)
-    (s2 : Store) (hc : commit (run H s ls) r = (.ok r, s2)) : s2.db[r]? ≠ none := by
-  obtain ⟨hp', keep⟩ := run_memSets_pending H ls hl s hp
-  obtain ⟨n', hn'⟩ := keep r n hn
+    (hn : lookupTree s.trees r = some (some n)) (ls : List Label) (hl : ∀ l ∈ ls, l.keeps r = true)
+    (s2 : Store) (hc : commit (run H s ls) r = (.ok r, s2)) :
+    (∃ n', lookupTree (run H s ls).trees r = some (some n') ∧ n'.info.hk = some r ∧ n'.info.persisted = false) ∧
+      s2.db[r]? ≠ none := by
+  obtain ⟨hp', keep⟩ := run_keeps_pending H r ls hl s hp
+  obtain ⟨n', hn'⟩ := keep n hn
   obtain ⟨hk, hper⟩ := hp' r n' hn'
+  refine ⟨⟨n', hn', hk, hper⟩, ?_⟩
   unfold commit at hc
   simp only [hn'] at hc
   cases hs : save (run H s ls).cfg n' (run H s ls).db with
@@ -64,6 +95,11 @@ theorem commit_exact (H : Bytes → Bytes) (s : Store) (hp : PendOK s) (r : Byte
     simp only [hs, Prod.mk.injEq, true_and] at hc
     subst hc
     simpa [Store.cacheTree] using save_root_record _ n' n'' _ db' r hs hk hper
+
+/-- non-vacuity of the label condition: a Set, a MemSet on top of `r`, Commit and Rollback of another root, a Get. -/
+example : ∀ l ∈ [Label.set [] 1 [([1], [2])], Label.memSet [7] 2 [], Label.commit [8], Label.rollback [9],
+    Label.get [7] [[1]]], l.keeps [7] = true := by
+  intro l hl; simp at hl; rcases hl with rfl | rfl | rfl | rfl | rfl <;> decide
 
 /-- non-vacuity of `PendOK` and of a pending entry: the store right after one non-empty `MemSet` on the empty
 state (for any hash function). -/
@@ -151,16 +187,18 @@ theorem forks_independent (s s' : Store) (r₂ : Bytes) (n₂ : Node)
   exact load_stable s.cfg s.db s'.db hsub n₁ h1 hf1 fuel top r₁ hr1 hd
 
 /-- **commit_exact_content_full / forks_independent_full** (store without the height prefix) — no `Consistent`
-hypothesis: the pending tree is keyed by the hashes of its content (`PH`, `C01.hashNode_keys_content`), the database
-only holds such records (`DBInv`).  Commit then makes exactly the pending tree loadable at its root, keeps every
-earlier record (so every other branch's committed root loads to the same tree, `C01.old_roots_stable`) and keeps
-`DBInv` — or the hash function has a collision. -/
+hypothesis: the pending tree is keyed by the hashes of its content (`PH`, `C01.hashNode_keys_content`), every record
+of the database is the record of a node of the explicit list `W` (`DBInv`).  Commit then makes exactly the pending
+tree loadable at its root, keeps every earlier record (so every other branch's committed root loads to the same
+tree, `C01.old_roots_stable`) and keeps `DBInv` — or two different strings among those hashed in the pending tree
+and in the nodes of `W` have the same hash (located collision). -/
 theorem commit_exact_content_full {H : Bytes → Bytes} (hlen : ∀ x, (H x).length = 32) (s s' : Store) (r : Bytes)
-    (n : Node) (hp : lookupTree s.trees r = some (some n)) (hc : commit s r = (.ok r, s'))
-    (hph : PH H n) (hs : C03.Shape n) (hk : KeyMin n) (hdb : DBInv H s.cfg s.db)
+    (n : Node) (W : List Node) (hp : lookupTree s.trees r = some (some n)) (hc : commit s r = (.ok r, s'))
+    (hph : PH H n) (hs : C03.Shape n) (hk : KeyMin n) (hdb : DBInv H s.cfg s.db W)
     (hps : PersistedStored s.cfg s.db n) (hf : FitsRec n) (fuel : Nat) (top : Bool) (hd : depth n < fuel) :
-    (load s'.db fuel top (pureHash H n) = .ok (asLoaded s.cfg n) ∧ Sub s.db s'.db ∧ DBInv H s.cfg s'.db) ∨
-      C03.Collision H := by
+    (load s'.db fuel top (pureHash H n) = .ok (asLoaded s.cfg n) ∧ Sub s.db s'.db ∧
+      DBInv H s.cfg s'.db (W ++ subnodes n)) ∨
+      C03.CollisionIn H (C03.treeTrace H n ++ tracesOf H W) := by
   unfold commit at hc
   simp only [hp] at hc
   cases hsv : save s.cfg n s.db with
@@ -169,18 +207,18 @@ theorem commit_exact_content_full {H : Bytes → Bytes} (hlen : ∀ x, (H x).len
     obtain ⟨n', db'⟩ := pr
     simp only [hsv, Prod.mk.injEq, true_and] at hc
     subst hc
-    rcases load_save_full hlen s.cfg n n' s.db db' hsv hph hs hk hdb hps hf fuel top hd with ⟨a, b, _, d⟩ | c
+    rcases load_save_full hlen s.cfg n n' s.db db' W hsv hph hs hk hdb hps hf fuel top hd with ⟨a, b, _, d⟩ | c
     · exact Or.inl (by simpa [Store.cacheTree] using And.intro a (And.intro b d))
     · exact Or.inr c
 
 theorem forks_independent_full {H : Bytes → Bytes} (hlen : ∀ x, (H x).length = 32) (s s' : Store) (r₂ : Bytes)
-    (n₂ : Node) (hp : lookupTree s.trees r₂ = some (some n₂)) (hc : commit s r₂ = (.ok r₂, s'))
-    (hph : PH H n₂) (hs : C03.Shape n₂) (hk : KeyMin n₂) (hdb : DBInv H s.cfg s.db)
+    (n₂ : Node) (W : List Node) (hp : lookupTree s.trees r₂ = some (some n₂)) (hc : commit s r₂ = (.ok r₂, s'))
+    (hph : PH H n₂) (hs : C03.Shape n₂) (hk : KeyMin n₂) (hdb : DBInv H s.cfg s.db W)
     (hps : PersistedStored s.cfg s.db n₂) (hf : FitsRec n₂)
     (n₁ : Node) (r₁ : Bytes) (h1 : Stored s.cfg s.db n₁) (hf1 : FitsRec n₁) (hr1 : n₁.info.hk = some r₁)
     (fuel : Nat) (top : Bool) (hd : depth n₁ < fuel) :
-    load s'.db fuel top r₁ = load s.db fuel top r₁ ∨ C03.Collision H := by
-  rcases commit_exact_content_full hlen s s' r₂ n₂ hp hc hph hs hk hdb hps hf (depth n₂ + 1) true (by omega) with
+    load s'.db fuel top r₁ = load s.db fuel top r₁ ∨ C03.CollisionIn H (C03.treeTrace H n₂ ++ tracesOf H W) := by
+  rcases commit_exact_content_full hlen s s' r₂ n₂ W hp hc hph hs hk hdb hps hf (depth n₂ + 1) true (by omega) with
     ⟨_, hsub, _⟩ | c
   · exact Or.inl (load_stable s.cfg s.db s'.db hsub n₁ h1 hf1 fuel top r₁ hr1 hd)
   · exact Or.inr c
@@ -199,5 +237,75 @@ theorem ops_commute (H : Bytes → Bytes) (s : Store) (ls₁ ls₂ : List Label)
   obtain ⟨a2, b2⟩ := run_frame H ls₂ h2 s
   exact memSet_reply_eq H (run H s ls₂) (run H s ls₁) (run_cacheOK H ls₂ h2 s hc) (run_cacheOK H ls₁ h1 s hc)
     (a1.trans a2.symm) (b1.trans b2.symm) p bh kvs
+
+/-- **pending_root_frame** — "whatever other updates were computed, committed or rolled back earlier": the root a
+`MemSet` on parent `p` answers is the same in any two stores with the same configuration in which the parent's tree
+is stored, whatever their pending entries (`trees`) and node caches hold and whatever else was committed in between
+(`Sub s.db s'.db`: commits only add records — `commit_exact_content*`).  `n` is the parent's tree as stored in the
+older database (balanced, int32 sizes: `C01.depth_lt_loadFuel` discharges the recursion budget). -/
+theorem pending_root_frame (H : Bytes → Bytes) (s s' : Store) (hc : CacheOK s) (hc' : CacheOK s')
+    (hcfg : s'.cfg = s.cfg) (n : Node) (p : Bytes) (hs : Stored s.cfg s.db n) (hf : FitsRec n) (hw : WF n)
+    (hp : n.info.hk = some p) (hsub : Sub s.db s'.db) (bh : Nat) (kvs : List (Bytes × Bytes)) :
+    (memSet H s' p bh kvs).1 = (memSet H s p bh kvs).1 :=
+  memSet_reply_frame H s s' hc hc' hcfg p bh kvs
+    (loadTree_stable s.cfg s.db s'.db hsub n hs hf p hp (depth_lt_loadFuel_aux n hw hf))
+
+/-- non-vacuity of the hypotheses of `commit_exact_content_full` / `forks_independent_full`, jointly, on a two-leaf
+pending tree keyed by the hashes of its content in a store with an empty database (any hash function with 32-byte
+outputs): pending entry under its root, `PH`, `Shape`, `KeyMin`, `DBInv … []`, `PersistedStored`, `FitsRec`, depth. -/
+example (H : Bytes → Bytes) (hlen : ∀ x, (H x).length = 32) :
+    let la : Node := .leaf [97] [1] ⟨some (H (leafEnc [97] [1])), false⟩
+    let lb : Node := .leaf [98] [2] ⟨some (H (leafEnc [98] [2])), false⟩
+    let root := H (innerEnc (H (leafEnc [97] [1])) (H (leafEnc [98] [2])) 1 2)
+    let n : Node := .inner [98] 1 2 la lb ⟨some root, false⟩
+    let s : Store := ⟨Cfg.default, {}, [(root, some n)], {}⟩
+    lookupTree s.trees root = some (some n) ∧ PH H n ∧ C03.Shape n ∧ KeyMin n ∧ DBInv H s.cfg s.db [] ∧
+      PersistedStored s.cfg s.db n ∧ FitsRec n ∧ depth n < loadFuel ∧ pureHash H n = root := by
+  intro la lb root n s
+  have l64 : ∀ x, (H x).length < 2 ^ 64 := fun x => by rw [hlen]; decide
+  refine ⟨by simp [s, lookupTree], ⟨rfl, rfl, rfl⟩, ⟨trivial, trivial, by decide, by decide⟩, ⟨trivial, trivial, rfl⟩,
+    fun k v h => by simp [s] at h, ⟨fun h => by simp at h, fun _ => ⟨fun h => by simp at h, fun h => by simp at h⟩⟩,
+    ⟨⟨by decide, by decide, ?_⟩, ⟨by decide, by decide, ?_⟩, by decide, by decide, by decide, by decide, ?_⟩,
+    by simp [n, la, lb, depth, loadFuel], rfl⟩
+  · intro h e; simp at e; subst e; exact l64 _
+  · intro h e; simp at e; subst e; exact l64 _
+  · intro h e; simp at e; subst e; exact l64 _
+
+/-- **pending_entry_reachable** — the hypotheses of `commit_exact_content_full` / `forks_independent_full` are
+reachable: in a store without `EnableMavlPrefix` / `enableMVCC` that satisfies the invariant `C01.SInv` (a new store
+does, `C01.sinv_new`; every `Store.Set` on a known root keeps it or exhibits a located collision, `C01.setKV_sinv`),
+a non-empty `MemSet` on a known root `r` (standing for the key/value list `L`) answers a root and leaves under it a
+pending tree `n` with that very root as its hash, `PH`, `Shape`, `KeyMin`, `PersistedStored`, `FitsRec`,
+`depth n < loadFuel`, over a database with `DBInv … W` — and `n` holds exactly `L` updated by the writes.  So
+`Commit` of that root makes exactly this content loadable (`commit_exact_content_full` applies as is).
+Not covered: pending entries carried across later Sets/Commits inside one invariant (`SInv` has no pending part;
+`PersistedStored` is monotone in the database, `C01.PersistedStored.mono`, which is the lemma that extension needs). -/
+theorem pending_entry_reachable {H : Bytes → Bytes} (hlen : ∀ x, (H x).length = 32) (s : Store) (W : List Node)
+    (R : List (Bytes × List (Bytes × Bytes))) (hi : SInv H s W R) (r : Bytes) (L : List (Bytes × Bytes))
+    (hr : (r, L) ∈ R) (bh : Nat) (kvs : List (Bytes × Bytes)) (hne : kvs ≠ [])
+    (hb : ∀ p ∈ kvs, p.1.length < 2 ^ 64 ∧ p.2.length < 2 ^ 64) (hsz : (SMap.insMany L kvs).length < 2 ^ 31) :
+    ∃ root s1 n, memSet H s r bh kvs = (.ok root, s1) ∧ lookupTree s1.trees root = some (some n) ∧
+      root = pureHash H n ∧ PH H n ∧ C03.Shape n ∧ KeyMin n ∧ DBInv H s1.cfg s1.db W ∧
+      PersistedStored s1.cfg s1.db n ∧ FitsRec n ∧ depth n < loadFuel ∧ n.toList = SMap.insMany L kvs := by
+  obtain ⟨t, s1, el, pre, tl, ti, hi1, edb, ecfg⟩ := loadRoot_sinv hlen s W R hi r L hr
+  obtain ⟨t', es, tl', ti'⟩ := Tree.setMany_spec t kvs ti
+  have pre' := setMany_pre kvs hb t pre t' es
+  have hne' : kvs.isEmpty = false := by cases kvs <;> simp_all
+  unfold memSet
+  simp only [hne', Bool.false_eq_true, if_false, el, es]
+  rw [tl] at tl'
+  cases t' with
+  | none =>
+    exfalso
+    exact insMany_ne_nil kvs L (Or.inr hne) (by simpa [Tree.toList] using tl'.symm)
+  | some n1 =>
+    simp only [Tree.toList] at tl'
+    have hs1 : n1.size < 2 ^ 31 := by rw [size_eq_length n1 ti'.2, tl']; exact hsz
+    have hp1 : Pre H s1.cfg s1.db n1 := by rw [edb, ecfg]; exact pre'
+    have hpf : s1.cfg.pfx = false := hi1.pfx
+    obtain ⟨a1, _, _, a4, a5, a6, _, a8, a9, a10, _, a12, a13⟩ := hash_step hlen s1.cfg hpf s1.db bh n1 hp1 hs1
+    refine ⟨(hashRoot H s1.cfg bh n1).2, _, (hashRoot H s1.cfg bh n1).1, rfl, lookupTree_storeTree _ _ _, ?_, a1, a5, a4,
+      hi1.dbinv, a6, a8, a9, by rw [a10, tl']⟩
+    rw [a12, a13]
 
 end C04
